@@ -39,6 +39,49 @@ class Spike(Job):
             pins.append(("fail_threshold = 2^-50", {S.ft.v: Fraction(1, 2 ** 50)}))
         return pins
 
+    def offgrid_transforms(self):
+        """neighbours of huge magnitude and opposite sign: offsets (+B, 0, -B, 0, ...) and the mirrored pattern, B = 2^53, 2^58, 2^63, 2^70.  The inputs
+        are whatever binary64 numbers the additions give; the oracle is evaluated exactly on them.  Probed only where every oracle
+        comparison is further from its threshold than four times the rounding a *direct* evaluation of the property's formula can
+        incur - ulp(|a+c|) + ulp(max(|x|, |ref|)) for the average method (a+c cancels exactly here), ulp of the larger operand for
+        the differences - so the unchanged code cannot flip there, while a re-expression that forms c-a first loses up to ulp(B)."""
+        import math
+        from fractions import Fraction
+        method = self.method or "average"
+        if method not in ("average", "differential") or self.n < 3:
+            return []
+
+        def mk(sign, B):
+            def shift(Sc):
+                out = Struct(**vars(Sc))
+                pat = (sign, 0, -sign, 0)
+                out.x = [v if v != v else v + pat[i % 4] * B for i, v in enumerate(Sc.x)]
+                return out
+            return shift
+
+        def safe(Sc):
+            x = Sc.x
+            for i in range(1, len(x) - 1):
+                a, b, c = x[i - 1], x[i], x[i + 1]
+                if a != a or b != b or c != c:
+                    continue
+                A, Bq, C = Fraction(a), Fraction(b), Fraction(c)
+                if method == "average":
+                    d = abs(Bq - (A + C) / 2)
+                    eb = math.ulp(float(abs(A + C))) + math.ulp(max(abs(b), float(abs(A + C) / 2)))
+                else:
+                    s1, s2 = Bq - A, C - Bq
+                    if s1 == 0 or s2 == 0:
+                        return False
+                    d = min(abs(s1), abs(s2)) if (s1 > 0) != (s2 > 0) else Fraction(0)
+                    eb = math.ulp(max(abs(a), abs(b), abs(c)))
+                for t in (Sc.st, Sc.ft):
+                    if t is not None and abs(d - Fraction(t)) <= 4 * Fraction(eb):
+                        return False
+            return True
+        return [(f"neighbours offset by {'+-'[sg < 0]}2^{e} / {'-+'[sg < 0]}2^{e}", mk(sg, float(2 ** e)), safe)
+                for e in (53, 58, 63, 70) for sg in (1, -1)]
+
     def invoke(self, mods, S, K):
         inp = K.farray(S.x) if self.carrier == "ndarray" else K.flist(S.x)
         kw = {}
